@@ -51,6 +51,8 @@ type c08Case struct {
 	K        int    `json:"k,omitempty"`
 	Unlim    bool   `json:"unlimited,omitempty"` // SetReadLimit(-1) first
 	Limit    int64  `json:"limit,omitempty"`     // declared-over-limit: the read limit
+	// ColdPools: the collector runs twice before every message is read (empties the library's sync.Pools)
+	ColdPools bool `json:"cold_pools,omitempty"`
 }
 
 func c08CompMode(comp string) string {
@@ -325,6 +327,10 @@ func c08OneP(c *fw.Ctx, cs c08Case, prop string) {
 				c.Violate(pc("C08/panic"), desc+": SetReadLimit panicked: "+p, cs)
 				return
 			}
+		}
+		if cs.ColdPools {
+			runtime.GC()
+			runtime.GC()
 		}
 		logBefore := t.LogLen()
 		var r c08Reading
@@ -615,6 +621,7 @@ func c08Cases(thorough bool) []c08Case {
 						ms = append(ms, c08Msg{Size: int(L), Framing: fr, SetLimit: i == 0, Limit: L})
 					}
 					out = append(out, c08Case{Kind: "limit", Client: client, Comp: "takeover-text", API: api, Msgs: ms})
+					out = append(out, c08Case{Kind: "limit", Client: client, Comp: "takeover-text", API: api, Msgs: ms, ColdPools: true})
 				}
 			}
 		}
